@@ -598,8 +598,56 @@ pub fn random_cases(seed: u64, thorough: bool, only: &str) -> Vec<Value> {
 	cases
 }
 
+/// Steer towards the PMTiles writer's root/leaf switch: find (by probing the REAL writer and reading the header of
+/// its output with the independent decoder) the largest tile count that still yields a root-only directory, and
+/// return cases for every count in a window around it. Tile lengths vary so that the directory compresses badly.
+pub fn pmtiles_boundary_cases(seed: u64, thorough: bool) -> Vec<Value> {
+	let rt = tokio::runtime::Builder::new_multi_thread().worker_threads(3).enable_all().build().unwrap();
+	let mut rng = Rng::new(seed ^ 0xB0DA);
+	let mut classes = serde_json::Map::new();
+	let all: Vec<Value> = (0..16383u32)
+		.map(|i| {
+			let p = i + 1;
+			classes.insert(p.to_string(), json!([rng.range(20, 619), 0]));
+			json!([8, 64 + (i % 128), 64 + (i / 128), p])
+		})
+		.collect();
+	let mk = |n: usize| json!({"k":"case","origin":"writer","fmt":"pmtiles","tf":"pbf","tc":"none","tiles":all[..n].to_vec(),"classes":classes.clone()});
+	let root_only = |n: usize| -> bool {
+		let case = mk(n);
+		let src = source_of(&case);
+		let mut mem = src.mem_reader();
+		let mut w = versatiles_core::io::DataWriterBlob::new().unwrap();
+		let r = catch(|| rt.block_on(<PMTilesWriter as TilesWriterTrait>::write_to_writer(&mut mem, &mut w)));
+		if !matches!(r, Ok(Ok(()))) {
+			return false;
+		}
+		let d = indep::decode_pmtiles(w.as_slice());
+		// not decodable counts as "not root-only" for the search; such cases are judged when replayed
+		d.ok && d.layout["leaves"][1].as_u64() == Some(0)
+	};
+	let (mut lo, mut hi) = (256usize, 16383usize);
+	if !root_only(lo) {
+		return vec![];
+	}
+	while lo + 1 < hi {
+		let mid = (lo + hi) / 2;
+		if root_only(mid) {
+			lo = mid;
+		} else {
+			hi = mid;
+		}
+	}
+	let span = if thorough { 60 } else { 30 };
+	let step = if thorough { 1 } else { 2 };
+	(lo.saturating_sub(span)..=(lo + span).min(16383)).step_by(step).map(mk).collect()
+}
+
 pub fn record(output: &str, dir: &str, seed: u64, thorough: bool, only: &str) -> Value {
-	let cases = random_cases(seed, thorough, only);
+	let mut cases = random_cases(seed, thorough, only);
+	if only == "C01" {
+		cases.extend(pmtiles_boundary_cases(seed, thorough));
+	}
 	let mut out = Out::create(output);
 	let mut tiles = 0usize;
 	let mut samples = vec![];
